@@ -205,6 +205,9 @@ void cmb_buffer_print_report(struct cmb_buffer *bp, FILE *fp) {
  */
 int64_t cmb_buffer_get(struct cmb_buffer *bp, uint64_t *amntp)
 {
+    /* Waiting since now, also if it takes several rounds at the guard */
+    const double waiting_since = cmb_time();
+
     cmb_assert_release(bp != NULL);
     cmb_assert_release(amntp != NULL);
 
@@ -256,9 +259,10 @@ int64_t cmb_buffer_get(struct cmb_buffer *bp, uint64_t *amntp)
         cmb_logger_info(stdout, "Waiting for more, level now %" PRIu64,
                         bp->level);
         cmb_resourceguard_signal(&(bp->rear_guard));
-        const int64_t sig = cmb_resourceguard_wait(&(bp->front_guard),
-                                                   buffer_has_content,
-                                                   NULL);
+        const int64_t sig = cmi_resourceguard_wait_since(&(bp->front_guard),
+                                                         buffer_has_content,
+                                                         NULL,
+                                                         waiting_since);
         if (sig == CMB_PROCESS_SUCCESS) {
             cmb_logger_info(stdout,"Returned successfully from wait");
         }
@@ -290,6 +294,9 @@ int64_t cmb_buffer_get(struct cmb_buffer *bp, uint64_t *amntp)
  */
 int64_t cmb_buffer_put(struct cmb_buffer *bp, uint64_t *amntp)
 {
+    /* Waiting since now, also if it takes several rounds at the guard */
+    const double waiting_since = cmb_time();
+
     cmb_assert_release(bp != NULL);
     cmb_assert_release(amntp != NULL);
     cmb_assert_release(*amntp > 0u);
@@ -338,9 +345,10 @@ int64_t cmb_buffer_put(struct cmb_buffer *bp, uint64_t *amntp)
         cmb_assert_debug(rem_claim > 0u);
         cmb_logger_info(stdout, "Waiting for space, level %" PRIu64, bp->level);
         cmb_resourceguard_signal(&(bp->front_guard));
-        const int64_t sig = cmb_resourceguard_wait(&(bp->rear_guard),
-                                                   buffer_has_space,
-                                                   NULL);
+        const int64_t sig = cmi_resourceguard_wait_since(&(bp->rear_guard),
+                                                         buffer_has_space,
+                                                         NULL,
+                                                         waiting_since);
         if (sig == CMB_PROCESS_SUCCESS) {
             cmb_logger_info(stdout,"Returned successfully from wait");
         }
